@@ -74,11 +74,15 @@ TOKEN_BASE = 100     # a Token n travels to the model as the hashable atom 100+n
 
 def fmk(v, salt=0):
     """FrozenDict value: ['h', id] hashable object, ['u', n] an unhashable container holding n,
-    ['t', n] a Token (hashable, process-dependent hash)"""
+    ['t', n] a Token (hashable, process-dependent hash), ['f', [[k, v], ...]] another FrozenDict (one level:
+    its values are h / u / t) - hashable iff all ITS values are, equal to any FrozenDict with the same items"""
     if v[0] == 'h':
         return mk(v[1], salt)
     if v[0] == 't':
         return Token(v[1])
+    if v[0] == 'f':
+        from boltons.dictutils import FrozenDict
+        return FrozenDict([(mk(k, salt + j), fmk(x, salt + j + 1)) for j, (k, x) in enumerate(v[1])])
     return [v[1]]
 
 
@@ -87,8 +91,33 @@ def fval(o):
         return ['u', o[0]]
     if isinstance(o, Token):
         return ['t', o.n]
+    if isinstance(o, dict) and type(o).__name__ == 'FrozenDict':
+        # canonical: sorted by key id, so that equal inner FrozenDicts read alike whatever their insertion order
+        return ['f', sorted(([oid(k), fval(x)] for k, x in o.items()), key=lambda p: str(p[0]))]
     i = oid(o)
     return ['h', i]
+
+
+def fcanon(inner):
+    """the items of an inner FrozenDict as a dict would hold them (a key once, last value), sorted"""
+    d = {}
+    for k, x in inner:
+        d[k] = (x[0], x[1])
+    return sorted(d.items(), key=lambda p: str(p[0]))
+
+
+def funh(v):
+    """raw value (list form): is it unhashable?"""
+    return v[0] == 'u' or (v[0] == 'f' and any(x[0] == 'u' for _, x in fcanon(v[1])))
+
+
+def fcode(inner):
+    """an inner FrozenDict travels to the model as ONE atom: a number that is a function of its item SET"""
+    n = 0
+    for k, (kind, num) in fcanon(inner):
+        c = num if kind == 'h' else 16 + num if kind == 't' else 19 + num
+        n = n * 401 + (int(k) * 25 + c) + 1
+    return 100000 + n
 
 
 def one_shot(pairs):
@@ -139,6 +168,7 @@ class C17(Property):
     # `OneToOne.__ior__` to), not off the shape of the class body: names bound one by one, through a helper, a
     # factory, a loop over names or a mixin all give the same table.  What is decided statically is only whether
     # the function a mutator name resolves to is an unconditional raiser (see `_raiser_class`).
+    DICT_MUTATORS = ('__setitem__', '__delitem__', '__ior__', 'update', 'setdefault', 'pop', 'popitem', 'clear')
     PURE_BUILTINS = ('type', 'str', 'repr', 'len', 'format', 'id', 'isinstance', 'getattr')
 
     @classmethod
@@ -260,11 +290,17 @@ class C17(Property):
     def regen(self):
         import inspect
         from bv.common import ensure_repo_on_path
-        blocked, raises, oto_own = [], '?', []
+        import types
+        blocked, raises, oto_own, m2m_foreign = [], '?', [], ['?']
         try:
             ensure_repo_on_path()
             from boltons import dictutils
             FD, OTO = dictutils.FrozenDict, dictutils.OneToOne
+            # ManyToMany is modelled as a class of its own: a mutating dict method it has WITHOUT defining it as a
+            # Python function (i.e. inherited from a builtin container it was made a subclass of) would write one side
+            m2m_foreign = [n for n in self.DICT_MUTATORS
+                           if not isinstance(inspect.getattr_static(dictutils.ManyToMany, n, types.FunctionType(
+                               (lambda: None).__code__, {})), types.FunctionType)]
             kinds = set()
             for n in self._own_callables(FD, dict):
                 k = self._raiser_class(inspect.getattr_static(FD, n))
@@ -290,7 +326,10 @@ class C17(Property):
                 'def frozenRaises : String := "%s"\n\n'
                 'def otoDefined : List String :=\n  [%s]\n\n'
                 'def dictMethods : List String :=\n  [%s]\n\n'
-                'end C17.Generated\n') % (q(blocked), raises, q(oto_own), q(dict_methods))
+                '/-- mutating dict methods ManyToMany has without defining them as Python functions (inherited from a\n'
+                '    builtin container) -/\n'
+                'def m2mForeignMutators : List String :=\n  [%s]\n\n'
+                'end C17.Generated\n') % (q(blocked), raises, q(oto_own), q(dict_methods), q(m2m_foreign))
         return {'C17_Frozen.lean': text}
 
     # ------------------------------------------------------------------ generation
@@ -473,6 +512,21 @@ class C17(Property):
                     yield {'t': 'fd', 'items': base[:n], 'ops': [['hash'], ['eq', [list(p) for p in perm], route]]}
         yield {'t': 'fd', 'items': [[1, ['u', 0]], [2, ['h', 1]]], 'ops': [['hash'], ['eq', [[2, ['h', 1]], [1, ['u', 0]]], 'updated'],
                                                                            ['updated', 'list', [[1, ['h', 1]]]], ['hash']]}
+        # round 3: FrozenDicts as VALUES of a FrozenDict (hashable iff their own values are; equal whatever their
+        # insertion order): against the same content with the inner dicts built in another order, along every route
+        inner = [[1, ['h', 3]], [4, ['t', 1]], [2, ['h', 0]]]
+        for n in range(0, 4):
+            for perm in itertools.permutations(inner[:n]):
+                items = [[1, ['f', inner[:n]]], [3, ['h', 1]]]
+                other = [[3, ['h', 1]], [1, ['f', [list(p) for p in perm]]]]
+                for route in self.FD_ROUTES:
+                    yield {'t': 'fd', 'items': items, 'ops': [['hash'], ['eq', other, route], ['copy', 'deepcopy'], ['hash']]}
+        for bad in ([[1, ['u', 0]]], [[1, ['h', 3]], [2, ['u', 1]]]):
+            items = [[1, ['f', bad]], [3, ['h', 1]]]
+            yield {'t': 'fd', 'items': items, 'ops': [['hash'], ['eq', list(reversed(items)), 'updated'], ['copy', 'pickle2'],
+                                                       ['updated', 'list', [[1, ['f', [[1, ['h', 3]]]]]]], ['hash'], ['mut', 'clear']]}
+        yield {'t': 'fd', 'items': [[1, ['f', [[1, ['h', 3]], [1, ['h', 4]]]]]], 'ops': [['eq', [[1, ['f', [[1, ['h', 4]]]]]]], ['hash'],
+                                                                                        ['eq', [[1, ['f', [[1, ['h', 3]]]]]]]]}
         # OneToOne.unique from another instance (+ keyword items that do / do not collide)
         for kw in ([], [[1, 3]], [[1, 5]], [[4, 2]]):
             for side in SIDES:
@@ -781,13 +835,21 @@ class C17(Property):
             d[k] = v
         return [[k, v] for k, v in d.items()]
 
-    def rfpairs(self, rng, ids, lo=0, hi=4, unh=0.15, tok=0.25):
+    def rfpairs(self, rng, ids, lo=0, hi=4, unh=0.15, tok=0.25, nest=0.08):
+        small = [i for i in ids if i < 16] or [1]
+
         def v():
             x = rng.random()
             if x < unh:
                 return ['u', rng.randrange(3)]
             if x < unh + tok:
                 return ['t', rng.randrange(3)]
+            if x < unh + tok + nest:
+                # a FrozenDict as a value (one level): hashable iff its own values are
+                def w():
+                    y = rng.random()
+                    return ['u', rng.randrange(3)] if y < unh / 2 else ['t', rng.randrange(3)] if y < 0.3 else ['h', rng.choice(small)]
+                return ['f', [[rng.choice(small), w()] for _ in range(rng.randint(0, 3))]]
             return ['h', rng.choice(ids)]
         return [[rng.choice(ids), v()] for _ in range(rng.randint(lo, hi))]
 
@@ -840,6 +902,8 @@ class C17(Property):
     def _fv(v):
         if v[0] == 't':
             return 'h%d' % (TOKEN_BASE + v[1])
+        if v[0] == 'f':
+            return '%s%d' % ('u' if funh(v) else 'h', fcode(v[1]))
         return '%s%d' % (v[0], v[1])
 
     def _fps(self, ps):
@@ -1340,7 +1404,7 @@ class C17(Property):
         return ','.join('%s:%s' % (k, v) for k, v in ps) or '-'
 
     def _rfp(self, ps):
-        return ','.join('%s:%s' % (k, self._fv(v) if isinstance(v[1], int) else '%s%s' % (v[0], v[1]))
+        return ','.join('%s:%s' % (k, self._fv(v) if (isinstance(v[1], int) or v[0] == 'f') else '%s%s' % (v[0], v[1]))
                         for k, v in ps) or '-'
 
     def _ret(self, rec):
@@ -1744,11 +1808,16 @@ class C17(Property):
 
     def oracle_fd(self, case, obs):
         def val(v):
+            if v[0] == 'f':
+                return ('f', frozenset((k, x) for k, x in fcanon(v[1])))
             return (v[0], v[1])
+
+        def unh(t):
+            return t[0] == 'u' or (t[0] == 'f' and any(x[0] == 'u' for _, x in t[1]))
         ref = {}
         for k, v in case['items']:
             ref[k] = val(v)
-        hashable = all(v[0] != 'u' for v in ref.values())
+        hashable = not any(unh(v) for v in ref.values())
 
         def asdict(items):
             return {k: val(v) for k, v in items}
@@ -1810,7 +1879,7 @@ class C17(Property):
                 if asdict(rec['res']) != want or len(rec['res']) != len(want):
                     return Failure('updated', 'updated(%r) = %r' % (op[2], rec['res']))
                 self._nt = self._nt or bool(op[2])
-                f = self._derived_oracle('updated(%r)' % (op[2],), rec, all(v[0] != 'u' for v in want.values()))
+                f = self._derived_oracle('updated(%r)' % (op[2],), rec, not any(unh(v) for v in want.values()))
                 if f:
                     return f
             elif o == 'copy':
@@ -1837,7 +1906,7 @@ class C17(Property):
                 want = {k: val(op[2]) for k in op[1]}
                 if asdict(rec['res']) != want or len(rec['res']) != len(want):
                     return Failure('fromkeys', 'fromkeys(%r, %r) = %r' % (op[1], op[2], rec['res']))
-                f = self._derived_oracle('fromkeys(%r, %r)' % (op[1], op[2]), rec, op[2][0] != 'u' or not op[1])
+                f = self._derived_oracle('fromkeys(%r, %r)' % (op[1], op[2]), rec, not funh(op[2]) or not op[1])
                 if f:
                     return f
         return None
